@@ -66,6 +66,23 @@ func c15(tier string) int {
 		relProgs = append(relProgs, prog{p.name + "+release-points", p.src + ";up=1"})
 	}
 	add("C15", relProgs, b)
+	// bulk: one transaction discarding more than a thousand versions at once hands the cleaner several
+	// batches, which different pool workers run. One execution is ~10^5 steps, so these programs are
+	// explored at bound 0 only — in the run-to-block default schedule and in the round-robin one (rr=1:
+	// the default choice at every point is the next thread), in which the workers' jobs overlap (S131).
+	add("C15", []prog{
+		{"bulk-rollback-two-workers", "b01.s0a*1001.r0;w=2"},
+		{"bulk-rollback-two-workers+round-robin", "b01.s0a*1001.r0;w=2;rr=1"},
+		{"bulk-commit-two-workers+round-robin", "I:Sa|b01.s0a*1002.c0;w=2;rr=1"},
+	}, 0)
+	// the round-robin schedule of every other client program as well (one more execution each)
+	var rr []prog
+	for _, ps := range [][]prog{c15FirstUse, c06Programs, c07Programs, c08Programs} {
+		for _, p := range ps {
+			rr = append(rr, prog{p.name + "+round-robin", p.src + ";rr=1"})
+		}
+	}
+	add("C15", rr, 0)
 	items = append(items,
 		conc.Item{Name: "pool-busy", Params: "w=1,k=4,s=2,l=1", MaxBound: b, Label: "C15/pool-busy"},
 		conc.Item{Name: "pool-stop", Params: "w=1,k=2,g=1", MaxBound: b, Label: "C15/pool-stop"},
